@@ -34,6 +34,23 @@ REQUIRED = ["mon:reused-object-equals-fresh-object", "mon:weights-equal-area-fra
             "mon:montecarlo-reproducible", "mon:montecarlo-weight-scale-invariant", "mon:montecarlo-zero-spread-closed-form"]
 
 
+def degenerate_retained(pts, idx):
+    """The retained sensors lie on one line (to 1e-5 of their extent): the Voronoi cells are strips, the area fractions
+    are defined - but scipy's Qhull cannot tessellate such a set, and HvsrSpatial hands its error on."""
+    q = np.asarray(pts, float)[list(idx)]
+    if len(q) < 3:
+        return True
+    sv = np.linalg.svd(q - q.mean(axis=0), compute_uv=False)
+    return bool(sv[1] <= 1e-5 * max(sv[0], 1e-300))
+
+
+def error_info(e, pts, idx):
+    """Witness fields naming the mechanism of a raised error (known_findings.json lists the collinear case)."""
+    if type(e).__name__ == "QhullError" and degenerate_retained(pts, idx):
+        return dict(mechanism="all-retained-sensors-on-one-line", exception="QhullError")
+    return dict(mechanism="other", exception=type(e).__name__)
+
+
 def gen_boundary(rng):
     k = int(rng.integers(3, 13))
     if rng.random() < 0.06:
@@ -95,6 +112,13 @@ def fam_layout(ctx, rng):
     import hvsrpy
     boundary, hk = gen_boundary(rng)
     pts, cls = gen_sensors(rng, boundary)
+    if gen.every_nth(ctx, 0.004):
+        # a linear profile: every sensor on one line through the site (its cells are strips)
+        c = MV.convex_hull(boundary).mean(axis=0)
+        t = np.sort(rng.uniform(-0.4, 0.4, int(rng.integers(4, 9))))
+        ang = float(rng.choice([0.0, np.pi / 2, float(rng.uniform(0, np.pi))]))
+        pts, cls = c + np.c_[t * np.cos(ang), t * np.sin(ang)], "linear-profile"
+        ctx.count("linear_profiles")
     offset = rng.uniform(-1, 1, 2) * float(rng.choice([0.0, 1.0, 1e2, 1e4]))
     scale = float(rng.choice([1e-2, 1.0, 10.0, 1e3]))
     B = (boundary + offset) * scale
@@ -116,7 +140,7 @@ def fam_layout(ctx, rng):
             ctx.count("calls_with_arguments_in_other_forms")
         w, ind = hvsrpy.HvsrSpatial(Pa).spatial_weights(Ba)
     except Exception as e:
-        ctx.check(False, "no-unexpected-error", f"spatial_weights raised {e!r}", **info)
+        ctx.check(False, "no-unexpected-error", f"spatial_weights raised {e!r}", **info, **error_info(e, P, idx))
         return
     ctx.count("spatial_weight_calls")
     w = np.asarray(w, dtype=float)
@@ -298,7 +322,7 @@ def fam_object_reuse(ctx, rng):
                 regs, ind = obj.bounded_voronoi(B)
                 w = np.array([abs(MV.area(np.asarray(r))) for r in regs]) / MV.area(MV.convex_hull(B))
         except Exception as e:
-            ctx.check(False, "reused-object-equals-fresh-object", f"a reused HvsrSpatial raised {e!r}", **info)
+            ctx.check(False, "reused-object-equals-fresh-object", f"a reused HvsrSpatial raised {e!r}", **info, **error_info(e, pts, idx))
             continue
         ctx.count("spatial_weight_calls")
         ok = list(ind) == list(idx) and w.shape == want.shape and bool(np.all(np.abs(w - want) <= 1e-7))
